@@ -1,4 +1,185 @@
-From ZV Require Import Base.Bytes DBus.Spec.
-Theorem C07_placeholder : padn 5 4 = 3%N.
-Proof. reflexivity. Qed.
-Print Assumptions C07_placeholder.
+(* Properties/C07.v — container nesting limits are enforced exactly (D-Bus format).
+   [depth_ok]/[within_limits] (DBus/Spec.v) is the specification's rule: at most 32 arrays (dicts count as arrays),
+   32 structs and 64 containers in total (variants count) on any path of a value.  [ser]/[ser_top] (DBus/Ser.v) and
+   [de_any] (DBus/De.v) are the models of zvariant's serializer and deserializer with their ContainerDepths counters.
+   Statements only. *)
+From ZV Require Import Base.Bytes Base.Res Base.Sig DBus.Val DBus.Spec DBus.Ser DBus.SerProofs DBus.De DBus.DeCompleteFacts
+  DBus.GeneratedDepth DBus.DepthLimits DBus.DepthIff DBus.DepthDe DBus.DepthDeClosed.
+Local Open Scope N_scope.
+
+(* the numbers: what the translator re-reads from zvariant/src/container_depths.rs on every run are the limits with which
+   the counter check of the models and the rule of the specification are written *)
+Theorem C07_limits_are_spec :
+  (forall d : depths,
+     dcheck d = Ok d <->
+     (d_struct d <= max_struct_depth /\ d_array d <= max_array_depth /\
+      d_struct d + d_array d + d_variant d + d_maybe d <= max_total_depth)) /\
+  (forall d : depths, dcheck d = Ok d \/ exists k, dcheck d = Err (EDepth k)) /\
+  (forall ds da dv x,
+     depth_ok ds da dv (VVariant x) = (ds + da + dv + 1 <=? max_total_depth) && depth_ok ds da (dv + 1) x) /\
+  (forall ds da dv el l,
+     depth_ok ds da dv (VArray el l)
+     = (da + 1 <=? max_array_depth) && (ds + da + dv + 1 <=? max_total_depth) && forallb (depth_ok ds (da + 1) dv) l) /\
+  (forall ds da dv ks vs l,
+     depth_ok ds da dv (VDict ks vs l)
+     = (da + 1 <=? max_array_depth) && (ds + da + dv + 1 <=? max_total_depth)
+       && forallb (fun p => depth_ok ds (da + 1) dv (fst p) && depth_ok ds (da + 1) dv (snd p)) l) /\
+  (forall ds da dv l,
+     depth_ok ds da dv (VStruct l)
+     = (ds + 1 <=? max_struct_depth) && (ds + da + dv + 1 <=? max_total_depth) && forallb (depth_ok (ds + 1) da dv) l).
+Proof. exact (limits_are_spec generated_depth_matches). Qed.
+Print Assumptions C07_limits_are_spec.
+
+(* ---------------- serializer ---------------- *)
+
+(* within the limits the encoder succeeds (this is C01_bytes) *)
+Theorem C07_ser_within : forall (c : cfg) (e : endian) (pos : N) (v : dval),
+  wf v = true -> enc_form v = true -> len (marshal_top e pos v) < 2 ^ 32 -> nfds v < 2 ^ 32 ->
+  within_limits v = true ->
+  ser_top c e pos (vsig v) (sval_of v) = Ok (marshal_top e pos v, fds_of v).
+Proof. intros c e pos v H1 H2 H3 H4. apply ser_top_within. repeat split; assumption. Qed.
+Print Assumptions C07_ser_within.
+
+(* beyond them it fails, and with a depth error *)
+Theorem C07_ser_exceeds : forall (c : cfg) (e : endian) (pos : N) (v : dval),
+  wf v = true -> enc_form v = true -> len (marshal_top e pos v) < 2 ^ 32 -> nfds v < 2 ^ 32 ->
+  within_limits v = false ->
+  exists k, ser_top c e pos (vsig v) (sval_of v) = Err (EDepth k).
+Proof. intros c e pos v H1 H2 H3 H4. apply ser_top_exceeds. repeat split; assumption. Qed.
+Print Assumptions C07_ser_exceeds.
+
+(* exactly: for every configuration, byte order, start offset and every well-formed value in encoder form whose
+   (total) marshalling and descriptor count fit the format's 32-bit fields *)
+Theorem C07_ser_iff : forall (c : cfg) (e : endian) (pos : N) (v : dval),
+  wf v = true -> enc_form v = true -> len (marshal_top e pos v) < 2 ^ 32 -> nfds v < 2 ^ 32 ->
+  ((exists b f, ser_top c e pos (vsig v) (sval_of v) = Ok (b, f)) <-> within_limits v = true) /\
+  ((exists k, ser_top c e pos (vsig v) (sval_of v) = Err (EDepth k)) <-> within_limits v = false).
+Proof.
+  intros c e pos v H1 H2 H3 H4. split; [apply ser_top_ok_iff|apply ser_top_err_iff]; repeat split; assumption.
+Qed.
+Print Assumptions C07_ser_iff.
+
+(* the size pass (serialized_size) refuses the same values *)
+Theorem C07_size_exceeds : forall (c : cfg) (e : endian) (pos : N) (v : dval),
+  wf v = true -> enc_form v = true -> len (marshal_top e pos v) < 2 ^ 32 -> nfds v < 2 ^ 32 ->
+  within_limits v = false ->
+  exists k, size_top c e pos (vsig v) (sval_of v) = Err (EDepth k).
+Proof. intros c e pos v H1 H2 H3 H4. apply size_top_exceeds. repeat split; assumption. Qed.
+Print Assumptions C07_size_exceeds.
+
+(* the general step, anywhere in a message and at any value of the counters (each within its own limit): the
+   outcome is decided by the specification's rule started from the current counters *)
+Theorem C07_ser_step : forall (v : dval) (st : sstate),
+  enc_form v = true -> wf v = true -> s_sig st = vsig v -> s_vsign st = None ->
+  (d_struct (s_dep st) <= 32 /\ d_array (s_dep st) <= 32 /\ d_maybe (s_dep st) = 0) ->
+  nfd st + nfds v < 2 ^ 32 ->
+  len (marshal (s_e st) ByOccurrence v (abs_pos st) (nfd st)) < 2 ^ 32 ->
+  if depth_ok (d_struct (s_dep st)) (d_array (s_dep st)) (d_variant (s_dep st)) v
+  then ser (sval_of v) st = Ok (grow st (marshal (s_e st) ByOccurrence v (abs_pos st) (nfd st)) (fds_of v))
+  else exists k, ser (sval_of v) st = Err (EDepth k).
+Proof. exact ser_dichotomy. Qed.
+Print Assumptions C07_ser_step.
+
+(* whenever serializing a value succeeds the counters are what they were before (so a sibling is judged like its
+   predecessor: the reason the struct serializer saves and restores container_depths) *)
+Theorem C07_counters_restored : forall (v : dval) (st st' : sstate),
+  enc_form v = true -> wf v = true -> s_sig st = vsig v -> s_vsign st = None ->
+  (d_struct (s_dep st) <= 32 /\ d_array (s_dep st) <= 32 /\ d_maybe (s_dep st) = 0) ->
+  nfd st + nfds v < 2 ^ 32 ->
+  len (marshal (s_e st) ByOccurrence v (abs_pos st) (nfd st)) < 2 ^ 32 ->
+  ser (sval_of v) st = Ok st' -> s_dep st' = s_dep st.
+Proof. exact ser_counters_restored. Qed.
+Print Assumptions C07_counters_restored.
+
+(* ---------------- deserializer ----------------
+   [at_ B p M] says that the buffer B holds the bytes M at offset p, [fds_match] that the descriptor indices on the wire
+   resolve in the decoder's table, [vdepth] is the nesting depth of a value (DBus/DeCompleteFacts.v).  The values in front
+   of the first container beyond a limit are decoded by C02's completeness theorem (DBus/DeComplete.v). *)
+
+(* decoding a valid encoding of a well-formed value that exceeds the limits (counted from the current counters) fails
+   with a depth error: anywhere in a buffer, for either reading of descriptor indices, with fuel for the depth of the
+   value or just for the 64 containers the counters allow (so: with the decoder's own fuel, however deep the value) *)
+Theorem C07_de_exceeds :
+  forall (v : dval) (fuel : nat) (st : dstate) (fm : fdmode) (k : N),
+    wf v = true -> t_sig st = vsig v ->
+    (d_struct (t_dep st) <= 32 /\ d_array (t_dep st) <= 32 /\ d_maybe (t_dep st) = 0) ->
+    len (marshal (t_e st) fm v (tabs st) k) < 2 ^ 32 -> N.of_nat (length (t_fds st)) <= 2 ^ 32 ->
+    at_ (t_bytes st) (t_pos st) (marshal (t_e st) fm v (tabs st) k) -> fds_match fm (t_fds st) k v ->
+    ((vdepth v <= fuel)%nat \/
+     (1 <= fuel /\ 65 <= fuel + N.to_nat (d_struct (t_dep st) + d_array (t_dep st) + d_variant (t_dep st)))%nat) ->
+    depth_ok (d_struct (t_dep st)) (d_array (t_dep st)) (d_variant (t_dep st)) v = false ->
+    exists j, de_any fuel st = Err (EDepth j).
+Proof. exact de_exceeds_closed. Qed.
+Print Assumptions C07_de_exceeds.
+
+(* exactly; and a successful decode returns the value and leaves the counters as they were *)
+Theorem C07_de_iff :
+  forall (v : dval) (fuel : nat) (st : dstate) (fm : fdmode) (k : N),
+    wf v = true -> t_sig st = vsig v ->
+    (d_struct (t_dep st) <= 32 /\ d_array (t_dep st) <= 32 /\ d_maybe (t_dep st) = 0) ->
+    len (marshal (t_e st) fm v (tabs st) k) < 2 ^ 32 -> N.of_nat (length (t_fds st)) <= 2 ^ 32 ->
+    at_ (t_bytes st) (t_pos st) (marshal (t_e st) fm v (tabs st) k) -> fds_match fm (t_fds st) k v ->
+    (vdepth v <= fuel)%nat ->
+    ((exists r, de_any fuel st = Ok r) <->
+     depth_ok (d_struct (t_dep st)) (d_array (t_dep st)) (d_variant (t_dep st)) v = true) /\
+    ((exists j, de_any fuel st = Err (EDepth j)) <->
+     depth_ok (d_struct (t_dep st)) (d_array (t_dep st)) (d_variant (t_dep st)) v = false) /\
+    (forall v' st', de_any fuel st = Ok (v', st') -> v' = v /\ t_dep st' = t_dep st).
+Proof. exact de_iff_closed. Qed.
+Print Assumptions C07_de_iff.
+
+(* the entry points with the decoder's own fuel (70): Data::deserialize::<Value>() ... *)
+Theorem C07_de_value_exceeds :
+  forall (c : cfg) (e : endian) (pos : N) (fm : fdmode) (x : dval) (rest : bytes) (fds : list N),
+    wf (VVariant x) = true -> len (marshal e fm (VVariant x) pos 0) < 2 ^ 32 -> N.of_nat (length fds) <= 2 ^ 32 ->
+    fds_match fm fds 0 (VVariant x) -> within_limits (VVariant x) = false ->
+    exists j, de_value_top c e pos (marshal e fm (VVariant x) pos 0 ++ rest) fds = Err (EDepth j).
+Proof. exact de_value_top_exceeds_closed. Qed.
+Print Assumptions C07_de_value_exceeds.
+
+(* exactly, at that entry point: a valid encoding (followed by anything) is decoded iff the value is within the limits,
+   and refused with a depth error iff it is not *)
+Theorem C07_de_value_iff :
+  forall (c : cfg) (e : endian) (pos : N) (fm : fdmode) (x : dval) (rest : bytes) (fds : list N),
+    wf (VVariant x) = true -> len (marshal e fm (VVariant x) pos 0) < 2 ^ 32 -> N.of_nat (length fds) <= 2 ^ 32 ->
+    fds_match fm fds 0 (VVariant x) ->
+    ((exists r, de_value_top c e pos (marshal e fm (VVariant x) pos 0 ++ rest) fds = Ok r) <-> within_limits (VVariant x) = true) /\
+    ((exists j, de_value_top c e pos (marshal e fm (VVariant x) pos 0 ++ rest) fds = Err (EDepth j)) <-> within_limits (VVariant x) = false).
+Proof. exact de_value_top_iff. Qed.
+Print Assumptions C07_de_value_iff.
+
+(* ... and Data::deserialize_for_dynamic_signature::<Structure>() on a message body *)
+Theorem C07_de_body_exceeds :
+  forall (c : cfg) (e : endian) (pos : N) (fm : fdmode) (l : list dval) (rest : bytes) (fds : list N),
+    wf (VStruct l) = true -> len (marshal e fm (VStruct l) pos 0) < 2 ^ 32 -> N.of_nat (length fds) <= 2 ^ 32 ->
+    fds_match fm fds 0 (VStruct l) -> within_limits (VStruct l) = false ->
+    exists j, de_struct_top c e pos (vsig (VStruct l)) (marshal e fm (VStruct l) pos 0 ++ rest) fds = Err (EDepth j).
+Proof. exact de_struct_top_exceeds_closed. Qed.
+Print Assumptions C07_de_body_exceeds.
+
+(* non-vacuity: a tower of exactly 32 arrays around a byte is within the limits and is encoded, 33 are not and the
+   encoder model answers MaxDepthExceeded(Array) *)
+Example C07_tower32 :
+  within_limits (atower 32) = true /\
+  (wf (atower 32) = true /\ enc_form (atower 32) = true /\ len (marshal_top LE 3 (atower 32)) < 2 ^ 32 /\ nfds (atower 32) < 2 ^ 32) /\
+  exists b, ser_top {| c_gv := false; c_oaa := false |} LE 3 (vsig (atower 32)) (sval_of (atower 32)) = Ok (b, []).
+Proof. split; [vm_compute; reflexivity|]. split; [repeat split; vm_compute; reflexivity|]. eexists. vm_compute. reflexivity. Qed.
+Example C07_tower33 :
+  within_limits (atower 33) = false /\
+  (wf (atower 33) = true /\ enc_form (atower 33) = true /\ len (marshal_top LE 3 (atower 33)) < 2 ^ 32 /\ nfds (atower 33) < 2 ^ 32) /\
+  ser_top {| c_gv := false; c_oaa := false |} LE 3 (vsig (atower 33)) (sval_of (atower 33)) = Err (EDepth DArray).
+Proof. split; [vm_compute; reflexivity|]. split; [repeat split; vm_compute; reflexivity|]. vm_compute. reflexivity. Qed.
+
+(* the decoder on the valid encodings of the same towers (computed, no premise): 32 arrays in a variant decode, 33 give
+   MaxDepthExceeded(Array), and so do 100 — deeper than the decoder's fuel *)
+Example C07_de_tower32 : exists n,
+  de_value_top {| c_gv := false; c_oaa := false |} LE 3 (marshal_rx LE 3 (VVariant (atower 32))) [] = Ok (atower 32, n).
+Proof. eexists. vm_compute. reflexivity. Qed.
+Example C07_de_tower33 :
+  wf (VVariant (atower 33)) = true /\ within_limits (VVariant (atower 33)) = false /\
+  len (marshal_rx LE 3 (VVariant (atower 33))) < 2 ^ 32 /\
+  de_value_top {| c_gv := false; c_oaa := false |} LE 3 (marshal_rx LE 3 (VVariant (atower 33))) [] = Err (EDepth DArray).
+Proof. repeat split; vm_compute; reflexivity. Qed.
+Example C07_de_tower100 :
+  de_value_top {| c_gv := false; c_oaa := false |} BE 0 (marshal_rx BE 0 (VVariant (atower 100))) [] = Err (EDepth DArray).
+Proof. vm_compute. reflexivity. Qed.
